@@ -46,6 +46,9 @@ def run(ck: Check, repo: Repo) -> None:
     ck.rule("C14.8", "IPPO: the Box used to bring a group's evaluation-mode action into bounds is the action space of a member of THAT group "
                      "(looked up through the group id of the loop that produced the action), not one addressed by the loop's position")
     _ippo_clip_space(ck, repo)
+    ck.rule("C14.9", "policy-gradient get_action hands the actor's action on with the axes the actor produced (batch, *action_shape): no axis is inserted or removed "
+                     "between the actor call and the return")
+    _no_axis_change(ck, repo)
     n_arg = 0
     for modname, q, mask in DISCRETE:
         n_arg += _discrete(ck, repo, repo.fn(modname, q), mask)
@@ -235,6 +238,45 @@ def _ippo_masks(ck: Check, repo: Repo, rule: str = "C14.7") -> None:
     ap = repo.fn("agilerl.networks.distributions", "EvolvableDistribution.apply_mask")
     ck.ob(rule, ap, ap.node, has(ap.node, "$_.view($_.shape)"), "apply_mask reinterprets the mask with the logits' shape by view(): element order must already agree",
           construct="apply_mask view")
+
+
+# ------------------------------------------------------------------------------------------------ C14.9
+_AXIS_OPS = {"unsqueeze", "squeeze", "expand_dims", "reshape", "view", "flatten", "ravel", "unsqueeze_", "squeeze_"}
+
+
+def _no_axis_change(ck: Check, repo: Repo) -> None:
+    n = 0
+    for modname, q in (("agilerl.algorithms.ppo", "PPO.get_action"), ("agilerl.algorithms.ippo", "IPPO.get_action")):
+        fn = repo.fn(modname, q)
+        cfg = CFG(fn.node)
+        rets = [r for r in cfg.live_nodes() if r.kind == "stmt" and isinstance(r.ast, ast.Return) and r.ast.value is not None]
+        # the action variable: first element of the returned tuple (PPO) / the name stored into the first returned dict (IPPO: per-group action)
+        names = set()
+        for r in rets:
+            v = r.ast.value
+            first = v.elts[0] if isinstance(v, ast.Tuple) and v.elts else v
+            if isinstance(first, ast.Name):
+                names.add(first.id)
+        if q.startswith("IPPO"):
+            names = {a.value.id for a in walk_no_nested(fn.node) if isinstance(a, ast.Assign) and isinstance(a.targets[0], ast.Subscript) and isinstance(a.value, ast.Name)
+                     and any(isinstance(c, ast.Call) and last_attr(c) == "disassemble_homogeneous_outputs" and c.args and dotted(c.args[0]) == dotted(a.targets[0].value)
+                             for c in ast.walk(fn.node))} or names
+        ops = []
+        for a in walk_no_nested(fn.node):
+            if isinstance(a, ast.Assign) and isinstance(a.targets[0], ast.Name) and a.targets[0].id in names:
+                for c in ast.walk(a.value):
+                    if isinstance(c, ast.Call) and (last_attr(c) in _AXIS_OPS or call_name(c) in ("np.expand_dims", "np.squeeze", "np.reshape")) \
+                            and any(isinstance(x, ast.Name) and x.id in names for x in ast.walk(c)):
+                        ops.append(c)
+                for sct in ast.walk(a.value):
+                    if isinstance(sct, ast.Subscript) and dotted(sct.value) in names and any(isinstance(x, ast.Constant) and x.value is None for x in ast.walk(sct.slice)):
+                        ops.append(sct)
+        n += 1
+        ck.ob("C14.9", fn, ops[0] if ops else fn.node, bool(names) and not ops, f"{q}: the returned action keeps the axes the actor produced",
+              detail=f"`{short(ops[0], 60)}` changes the axes of the action: for Box(shape=(1,)) a (B, 4) observation batch gives an action of shape (B, 1, 1), which is not B elements of "
+                     "the action space" if ops else f"action variable(s): {sorted(names)}",
+              construct=f"{q}: axes of the returned action")
+    ck.floor("C14.9", n, 2, "policy-gradient get_action functions")
 
 
 # ------------------------------------------------------------------------------------------------ C14.8
@@ -563,6 +605,7 @@ _DD = "agilerl/algorithms/ddpg.py"
 _MA = "agilerl/algorithms/maddpg.py"
 _PP = "agilerl/algorithms/ppo.py"
 VARIANTS = [
+    ("ppo-box1-action-gets-extra-axis", "agilerl/algorithms/ppo.py", "        # Clip to action space during inference\n        action = action.cpu().data.numpy()", "        if isinstance(self.action_space, spaces.Box) and self.action_space.shape == (1,):\n            action = action.unsqueeze(1)\n\n        # Clip to action space during inference\n        action = action.cpu().data.numpy()", "fire", "C14.9"),
     ("matd3-clamp-bounds-reduced-to-scalars", "agilerl/algorithms/matd3.py", "                        torch.as_tensor(self.min_action[idx], device=actions.device),\n                        torch.as_tensor(self.max_action[idx], device=actions.device),", "                        float(self.min_action[idx].min()),\n                        float(self.max_action[idx].max()),", "fire", "C14.2"),
     ("ippo-clip-space-by-loop-position", "agilerl/algorithms/ippo.py", "            agent_id = self.homogeneous_agents[shared_id][0]\n            agent_space = self.action_space[agent_id]", "            agent_space = self.action_space[self.agent_ids[idx]]", "fire", "C14.8"),
     ("dqn-mask-polarity", _DQ, "q_values.masked_fill((1 - action_mask).bool(), float(\"-inf\"))", "q_values.masked_fill(action_mask.bool(), float(\"-inf\"))", "fire", "C14.1"),
